@@ -47,6 +47,168 @@ Ltac brk :=
   | H : context [match ?c with Some _ => _ | None => _ end] |- _ => destruct c eqn:?; try discriminate H
   end.
 
+Section KeyPaths.
+Local Open Scope N_scope.
+
+(* ------------------------------------------------------------------ key paths *)
+
+Definition byte_ok (c : N) : Prop := c < 256.
+Definition key_ok (k : key) : Prop := Forall byte_ok (fst k).
+
+Lemma unhex_hexdig d : d < 16 -> unhexdig (hexdig d) = Some d.
+Proof.
+  intro Hd. unfold hexdig, unhexdig.
+  destruct (N.ltb_spec d 10).
+  - assert ((48 <=? 48 + d) && (48 + d <=? 57) = true) as ->.
+    { apply andb_true_iff; split; apply N.leb_le; lia. }
+    f_equal; lia.
+  - assert ((48 <=? 55 + d) && (55 + d <=? 57) = false) as ->.
+    { apply andb_false_iff; right; apply N.leb_gt; lia. }
+    assert ((97 <=? 55 + d) && (55 + d <=? 102) = false) as ->.
+    { apply andb_false_iff; left; apply N.leb_gt; lia. }
+    assert ((65 <=? 55 + d) && (55 + d <=? 70) = true) as ->.
+    { apply andb_true_iff; split; apply N.leb_le; lia. }
+    f_equal; lia.
+Qed.
+
+Lemma hexdig_not_slash d : hexdig d <> 47.
+Proof. unfold hexdig. destruct (d <? 10); lia. Qed.
+
+Lemma byte_split c : byte_ok c -> c / 16 < 16 /\ c mod 16 < 16 /\ 16 * (c / 16) + c mod 16 = c.
+Proof.
+  unfold byte_ok; intro Hc. repeat split.
+  - apply N.div_lt_upper_bound; lia.
+  - apply N.mod_lt; lia.
+  - symmetry; apply N.div_mod; lia.
+Qed.
+
+Lemma hex_roundtrip (b : bytes) : Forall byte_ok b -> hex_decode (hex_encode b) = Some b.
+Proof.
+  induction 1 as [| c r Hc _ IH]; [reflexivity |].
+  destruct (byte_split c Hc) as (A & B & E).
+  cbn [hex_encode hex_decode]. rewrite (unhex_hexdig _ A), (unhex_hexdig _ B), IH, E. reflexivity.
+Qed.
+
+Lemma no_escape_plain c : should_escape c = false -> c <> 37 /\ c <> 47.
+Proof.
+  intro E. split; intro; subst c; vm_compute in E; discriminate.
+Qed.
+
+Lemma url_roundtrip (b : bytes) : Forall byte_ok b -> path_unescape (path_escape b) = Some b.
+Proof.
+  induction 1 as [| c r Hc _ IH]; [reflexivity |].
+  cbn [path_escape]. destruct (should_escape c) eqn:Es.
+  - destruct (byte_split c Hc) as (A & B & E).
+    cbn [path_unescape]. rewrite N.eqb_refl, (unhex_hexdig _ A), (unhex_hexdig _ B), IH, E. reflexivity.
+  - destruct (no_escape_plain c Es) as [N1 _].
+    cbn [path_unescape]. apply N.eqb_neq in N1. rewrite N1, IH. reflexivity.
+Qed.
+
+Definition no_slash (s : bytes) : Prop := Forall (fun c => c <> 47) s.
+
+Lemma path_escape_no_slash (b : bytes) : no_slash (path_escape b).
+Proof.
+  induction b as [| c r IH]; [constructor |].
+  cbn [path_escape]. destruct (should_escape c) eqn:Es.
+  - repeat constructor; auto using hexdig_not_slash. lia.
+  - constructor; [apply (no_escape_plain c Es) | exact IH].
+Qed.
+
+Lemma hex_encode_no_slash (b : bytes) : no_slash (hex_encode b).
+Proof. induction b; cbn [hex_encode]; repeat constructor; auto using hexdig_not_slash. Qed.
+
+Lemma no_slash_skipn n s : no_slash s -> no_slash (skipn n s).
+Proof.
+  revert s; induction n as [| n IH]; intros s Hs; [exact Hs |].
+  destruct s; [constructor |]. inversion Hs; subst. cbn. apply IH; assumption.
+Qed.
+
+Lemma encode_key_no_slash k : no_slash (encode_key k).
+Proof.
+  unfold encode_key. destruct (snd k).
+  - cbv zeta. destruct (has_x_prefix _).
+    + repeat constructor; try lia. apply no_slash_skipn, path_escape_no_slash.
+    + apply path_escape_no_slash.
+  - repeat constructor; try lia. apply hex_encode_no_slash.
+Qed.
+
+Lemma split_no_slash p : no_slash p -> split_slash p = [p].
+Proof.
+  induction 1 as [| c r Hc _ IH]; [reflexivity |].
+  cbn [split_slash]. rewrite IH. apply N.eqb_neq in Hc. rewrite Hc. reflexivity.
+Qed.
+
+Lemma split_app p rest : no_slash p -> split_slash (p ++ 47 :: rest) = p :: split_slash rest.
+Proof.
+  induction 1 as [| c r Hc _ IH].
+  - cbn [app split_slash]. rewrite N.eqb_refl. reflexivity.
+  - cbn [app split_slash]. rewrite IH. apply N.eqb_neq in Hc. rewrite Hc. reflexivity.
+Qed.
+
+(* the parts KeyPathToKeys cuts the printed path into are the printed keys *)
+Lemma split_kp_string k (kp : list key) :
+  split_slash (encode_key k ++ kp_string kp) = map encode_key (k :: kp).
+Proof.
+  revert k; induction kp as [| k' r IH]; intro k.
+  - cbn [kp_string map]. rewrite app_nil_r. apply split_no_slash, encode_key_no_slash.
+  - cbn [kp_string]. rewrite split_app by apply encode_key_no_slash. rewrite IH. reflexivity.
+Qed.
+
+Lemma has_x_prefix_spec s : has_x_prefix s = true -> exists r, s = 120 :: 58 :: r.
+Proof.
+  destruct s as [| a [| b r]]; cbn; try discriminate.
+  intro E. apply andb_true_iff in E as [A B]. apply N.eqb_eq in A, B. subst. eauto.
+Qed.
+
+Lemma decode_encode k : key_ok k -> decode_part (encode_key k) = Some (fst k).
+Proof.
+  unfold key_ok, encode_key, decode_part. destruct k as [name [|]]; cbn [fst snd]; intro Hk.
+  - cbv zeta. pose proof (url_roundtrip name Hk) as R.
+    destruct (has_x_prefix (path_escape name)) eqn:Ex.
+    + destruct (has_x_prefix_spec _ Ex) as [r Er]. rewrite Er in R |- *.
+      cbn [skipn]. cbn [has_x_prefix]. replace ((120 =? 120) && (37 =? 58)) with false by reflexivity.
+      cbn [path_unescape] in R |- *.
+      replace (120 =? 37) with false in * by reflexivity.
+      replace (58 =? 37) with false in R by reflexivity.
+      replace (37 =? 37) with true by reflexivity.
+      replace (unhexdig 51) with (Some 3) by reflexivity.
+      replace (unhexdig 65) with (Some 10) by reflexivity.
+      replace (16 * 3 + 10) with 58 by reflexivity. exact R.
+    + rewrite Ex. exact R.
+  - cbn [has_x_prefix]. replace ((120 =? 120) && (58 =? 58)) with true by reflexivity.
+    cbn [skipn]. apply hex_roundtrip; exact Hk.
+Qed.
+
+Lemma map_opt_decode (kp : list key) :
+  Forall key_ok kp -> map_opt decode_part (map encode_key kp) = Some (map fst kp).
+Proof.
+  induction 1 as [| k r Hk _ IH]; [reflexivity |].
+  cbn [map map_opt]. rewrite (decode_encode k Hk), IH. reflexivity.
+Qed.
+
+(* KeyPathToKeys (KeyPath.String kp) = the keys of kp: every non-empty key path, every byte
+   string as a key, both encodings *)
+Lemma keypath_roundtrip (kp : list key) :
+  kp <> [] -> Forall key_ok kp -> key_path_to_keys (kp_string kp) = Some (map fst kp).
+Proof.
+  destruct kp as [| k r]; [congruence |]. intros _ Hk.
+  cbn [kp_string key_path_to_keys]. rewrite N.eqb_refl, split_kp_string. apply map_opt_decode; exact Hk.
+Qed.
+
+(* hence printing is injective on the keys: two key paths printed alike name the same keys,
+   whatever encodings they use *)
+Lemma kp_string_binds (kp kp' : list key) :
+  kp <> [] -> Forall key_ok kp -> Forall key_ok kp' ->
+  kp_string kp = kp_string kp' -> map fst kp = map fst kp'.
+Proof.
+  intros Hn Hk Hk' E.
+  assert (Hn' : kp' <> []). { intro; subst kp'. destruct kp; [congruence | discriminate]. }
+  pose proof (keypath_roundtrip kp Hn Hk) as R. rewrite E, (keypath_roundtrip kp' Hn' Hk') in R.
+  congruence.
+Qed.
+
+End KeyPaths.
+
 Section P.
 Variable H : bytes -> bytes.
 Variable hh : header -> bytes.
